@@ -409,3 +409,48 @@ def render_isolation(ctx):
         fn = db.func("template.Template." + name)
         stores = [n for n in walk_func(fn) if isinstance(n, (ast.Attribute, ast.Subscript)) and isinstance(n.ctx, (ast.Store, ast.Del)) and (dotted(n.value) or "").startswith("self")]
         ctx.check(not stores, "Template.%s" % name, db.where(fn), "render entry point stores into the Template: %s" % [src(s) for s in stores], "no store into self")
+
+
+_SYSMOD_EXAMPLE = '''
+import sys
+def bad(p):
+    try:
+        return sys.modules[p]
+    except KeyError:
+        return __import__(p)
+def bad2(p):
+    return sys.modules.get(p) or __import__(p)
+def good(p):
+    if p in sys.modules:
+        del sys.modules[p]
+    return __import__(p)
+'''
+
+
+def _sysmodule_reads(tree):
+    """places that take a module object out of sys.modules (subscript load / .get / .pop / .setdefault)"""
+    out = []
+    for n in ast.walk(tree):
+        if isinstance(n, ast.Subscript) and isinstance(n.ctx, ast.Load) and dotted(n.value) == "sys.modules":
+            out.append(n)
+        elif isinstance(n, ast.Call) and isinstance(n.func, ast.Attribute) and n.func.attr in ("get", "pop", "setdefault") and dotted(n.func.value) == "sys.modules":
+            out.append(n)
+    return out
+
+
+@rule("C16.import-through-machinery", min_instances=1)
+def import_through_machinery(ctx):
+    """modules (cache plugins, <%namespace module=...>) are obtained through the import machinery only: nothing takes a module object out of sys.modules, where Python publishes a module before its body has run - only the import lock makes a concurrent first use wait for the complete module"""
+    db = ctx.db
+    ex = _sysmodule_reads(ast.parse(_SYSMOD_EXAMPLE))
+    ctx.require(len(ex) == 2, "self-example of the sys.modules matcher no longer matches (%d)" % len(ex))
+    ctx.ok("self-example", "", "matcher flags sys.modules[p] / sys.modules.get(p) and accepts membership tests and deletion in the embedded example")
+    n = 0
+    for name in sorted(db.modules):
+        if name.startswith("testing"):
+            continue
+        for r in _sysmodule_reads(db.modules[name].tree):
+            n += 1
+            ctx.violation("sysmodules:%s:%s" % (name, getattr(getattr(r, "_func", None), "name", "<module>")), db.where(r),
+                          "`%s` takes a module out of sys.modules without the import lock: while another thread is still importing it (first render that needs a cache plugin or a namespace module) the module is there but incomplete, and the second render fails with AttributeError" % " ".join(src(r).split())[:60])
+    ctx.note("sys_modules_reads_in_package", n)
